@@ -80,6 +80,7 @@ const P_KIND_BASE: usize = 0; // 13 probes, one per kind processed
 const P_MAG_CAP: usize = 13;
 const P_DELAY_LONGER_THAN_BUFFER: usize = 14;
 const P_TWELVE_CALLS: usize = 15;
+const P_1024_CALLS: usize = 16;
 
 // ---------------------------------------------------------------------------------------------
 // wrappers
@@ -179,6 +180,12 @@ pub struct NodeM {
     delay: Vec<VecDeque<f32>>,
     sig_channels: usize,
     sig_pos: u64,
+    /// signal node over a finite source with an offset adaptor on top: reports exhaustion after
+    /// `sig_end` frames but keeps yielding the (non-silent) offset
+    sig_end: Option<u64>,
+    sig_offset: f32,
+    /// physical start index of each delay ring (recovered ring state)
+    delay_first: Vec<usize>,
     inner_in: Vec<Vec<Buf>>,
     inner_sum_bufs: usize,
     processed_once: bool,
@@ -218,7 +225,8 @@ fn eval_node(n: &mut NodeM, inputs: &[Vec<Buf>], obs: &mut Observer) {
             let chans = n.sig_channels.min(nb);
             for ix in 0..LEN {
                 for ch in 0..chans {
-                    n.bufs[ch][ix] = sig_val(n.tag, n.sig_pos, ch);
+                    let live = n.sig_end.map(|e| n.sig_pos < e).unwrap_or(true);
+                    n.bufs[ch][ix] = if live { sig_val(n.tag, n.sig_pos, ch) } else { 0.0 } + n.sig_offset;
                 }
                 n.sig_pos += 1;
             }
@@ -336,6 +344,28 @@ pub fn make_node<W: Wrap>(m: &NodeM, param: i64) -> Option<W> {
             });
             W::wrap_local(f)?
         }
+        K_SIGNAL if m.sig_end.is_some() => {
+            let end = m.sig_end.unwrap();
+            let off = m.sig_offset;
+            match m.sig_channels {
+                1 => {
+                    let s: Box<dyn Signal<Frame = [f32; 1]>> =
+                        Box::new(dasp_signal::from_iter((0..end).map(move |k| [sig_val(tag, k, 0)])).offset_amp(off));
+                    W::wrap_local(s)?
+                }
+                2 => {
+                    let s: Box<dyn Signal<Frame = [f32; 2]>> =
+                        Box::new(dasp_signal::from_iter((0..end).map(move |k| [sig_val(tag, k, 0), sig_val(tag, k, 1)])).offset_amp(off));
+                    W::wrap_local(s)?
+                }
+                _ => {
+                    let s: Box<dyn Signal<Frame = [f32; 3]>> = Box::new(
+                        dasp_signal::from_iter((0..end).map(move |k| [sig_val(tag, k, 0), sig_val(tag, k, 1), sig_val(tag, k, 2)])).offset_amp(off),
+                    );
+                    W::wrap_local(s)?
+                }
+            }
+        }
         K_SIGNAL => {
             let mut k = 0u64;
             match m.sig_channels {
@@ -373,10 +403,19 @@ pub fn make_node<W: Wrap>(m: &NodeM, param: i64) -> Option<W> {
         K_SUMBUF_REF => W::wrap(Box::leak(Box::new(SumBuffers)) as &'static mut SumBuffers),
         K_PASS_BOXED_TWICE => W::wrap(Box::new(Pass)),
         K_DELAY => {
+            // the model keeps each ring oldest-first; the real ring may start anywhere (recovered state)
             let rings: Vec<ring_buffer::Fixed<Vec<f32>>> = m
                 .delay
                 .iter()
-                .map(|d| ring_buffer::Fixed::from(d.iter().copied().collect::<Vec<f32>>()))
+                .zip(m.delay_first.iter())
+                .map(|(d, &first)| {
+                    let len = d.len();
+                    let mut phys = vec![0.0f32; len];
+                    for (i, v) in d.iter().enumerate() {
+                        phys[(first + i) % len] = *v;
+                    }
+                    ring_buffer::Fixed::from_raw_parts(first, phys)
+                })
                 .collect();
             W::wrap(Delay(rings))
         }
@@ -413,17 +452,34 @@ pub fn new_model(tag: u32, kind: i64, nbuf: usize, param: i64, init: f32) -> Nod
         delay: Vec::new(),
         sig_channels: 0,
         sig_pos: 0,
+        sig_end: None,
+        sig_offset: 0.0,
+        delay_first: Vec::new(),
         inner_in: Vec::new(),
         inner_sum_bufs: 0,
         processed_once: false,
     };
     match kind {
-        K_SIGNAL => m.sig_channels = 1 + p % 3,
+        K_SIGNAL => {
+            m.sig_channels = 1 + p % 3;
+            if p % 5 == 0 {
+                m.sig_end = Some([0u64, 10, 64, 100, 130][(p / 5) % 5]);
+                m.sig_offset = 0.5;
+            }
+        }
         K_DELAY => {
             // ring lengths 1..=200, different per channel; initial content non-zero
             let rings = p % 4;
             for ch in 0..rings {
-                let len = 1 + (p / 4 + ch * 37) % 200;
+                // ring lengths 1..=200, rarely far beyond one buffer / a power of two
+                let len = if p % 41 == 7 {
+                    [256usize, 257, 1000, 4096, 4097][(p / 41 + ch) % 5]
+                } else if p % 11 == 3 {
+                    [64usize, 128, 192][(p / 11 + ch) % 3]
+                } else {
+                    1 + (p / 4 + ch * 37) % 200
+                };
+                m.delay_first.push(if p % 3 == 0 { (p / 7 + ch * 5) % len } else { 0 });
                 m.delay.push((0..len).map(|i| ((i + ch) % 5) as f32 + 1.0).collect());
             }
         }
@@ -448,7 +504,7 @@ fn gen_op(r: &mut Rng, g: &mut Gen, live: usize, edges: usize, calls: u32) -> Op
     if g.done >= g.steps {
         return None;
     }
-    let add = |r: &mut Rng| Op::new(O_ADD_NODE, r.range(0, N_KINDS - 1), *r.pick(&[0i64, 1, 1, 2, 2, 3]), r.range(0, 4000));
+    let add = |r: &mut Rng| Op::new(O_ADD_NODE, r.range(0, N_KINDS - 1), *r.pick(&[0i64, 1, 1, 2, 2, 3, 3, 9, 12, 17]), r.range(0, 4000));
     if g.init > 0 {
         g.init -= 1;
         if live < 2 || r.chance(2, 5) {
@@ -461,7 +517,7 @@ fn gen_op(r: &mut Rng, g: &mut Gen, live: usize, edges: usize, calls: u32) -> Op
         if live > 0 { 4 } else { 0 },
         if edges > 0 { 2 } else { 0 },
         if live > 1 { 1 } else { 0 },
-        if live > 0 { if calls < 12 { 12 } else { 3 } } else { 0 },
+        if live > 0 { if g.steps > 1000 { 80 } else if calls < 12 { 12 } else { 3 } } else { 0 },
     ];
     Some(match r.weighted(&w) as u8 {
         O_ADD_NODE => add(r),
@@ -474,7 +530,7 @@ fn gen_op(r: &mut Rng, g: &mut Gen, live: usize, edges: usize, calls: u32) -> Op
 
 fn drive<W: Wrap, G: GraphLike<W>>(src: &mut Source, obs: &mut Observer) -> Result<(), Violation> {
     let mut gen = Gen {
-        steps: src.cfg("steps", 0, 48, |r| r.range(3, 48)) as usize,
+        steps: src.cfg("steps", 0, 1300, |r| if r.chance(1, 150) { r.range(1050, 1300) } else { r.range(3, 48) }) as usize,
         done: 0,
         init: src.cfg("init_ops", 0, 16, |r| r.range(2, 16)),
     };
@@ -506,7 +562,7 @@ fn drive<W: Wrap, G: GraphLike<W>>(src: &mut Source, obs: &mut Observer) -> Resu
                     continue;
                 }
                 let kind = op.a.rem_euclid(N_KINDS);
-                let nbuf = op.b.clamp(0, 3) as usize;
+                let nbuf = op.b.clamp(0, 17) as usize;
                 let tag = next_tag;
                 let init = if op.c % 2 == 0 { 0.0 } else { 100.0 + tag as f32 };
                 let model = new_model(tag, kind, nbuf, op.c, init);
@@ -589,6 +645,9 @@ fn drive<W: Wrap, G: GraphLike<W>>(src: &mut Source, obs: &mut Observer) -> Resu
                 }
                 if calls >= 12 {
                     obs.probe(P_TWELVE_CALLS);
+                }
+                if calls >= 1025 {
+                    obs.probe(P_1024_CALLS);
                 }
                 dirty = false;
                 let up = m.upstream(out);
@@ -704,6 +763,7 @@ impl Scenario for NodesScenario {
             "run stopped: values left the exact f32 range",
             "delay ring longer than one buffer",
             ">= 12 consecutive process calls",
+            "> 1024 consecutive process calls (signal position past 2^16 frames)",
         ]
     }
     fn rule(&self) -> &'static str {
